@@ -584,12 +584,12 @@ def rule_query_corpus(repo, tier, R):
     except WitnessError as e:
         R.fail("BUILD", "witness-base", str(e), None)
         return
-    rng = random.Random(1000 + seed)
     per_combo = 12 if tier == "quick" else 120
     files = []   # (kind good/bad, lines, index{n: (a,b)}, meta{n: (...)})
     n = 0
     total_good = total_bad = 0
-    for wname in sorted(QWORLDS):
+    # thorough: three independent samples
+    for wname, rng in [(w_, random.Random(1000 + seed + 7919 * r_)) for r_ in range(1 if tier == "quick" else 3) for w_ in sorted(QWORLDS)]:
         for with_cfg in (False, True):
             for kind in KINDS:
                 qs = gen_queries(wname, rng, per_combo, with_cfg)
